@@ -173,3 +173,29 @@ def effectful_calls(body, region):
             continue
         out.append(c)
     return out
+
+
+def upvar_sources(ctx, child):
+    """{captured variable name: origin term in the parent body} for a closure / async block"""
+    parent = ctx.P.bodies.get(child.parent) if child.parent else None
+    if parent is None and child.parent:
+        # parent recorded by def path; bin crates are keyed with a crate prefix
+        for k, b in ctx.P.bodies.items():
+            if b.name == child.parent and b.crate == child.crate:
+                parent = b
+    if parent is None:
+        return {}, None
+    o = ctx.origins(parent)
+    for bi in sorted(parent.reachable()):
+        for st in parent.blocks[bi]["stmts"]:
+            if st["s"] == "assign" and st["rv"]["r"] == "aggregate" and st["rv"]["kind"]["a"] in ("closure", "coroutine", "coroutine_closure") and st["rv"]["kind"].get("def") == child.name:
+                out = {}
+                for i, op in enumerate(st["rv"]["ops"]):
+                    nm = child.upvars.get(i, "upvar#%d" % i)
+                    out[nm] = o.of_operand(op)
+                return out, parent
+    return {}, parent
+
+
+def spawned_children(ctx, parent_key):
+    return [ctx.P.bodies[e.dst] for e in ctx.cg.out.get(parent_key, []) if e.kind == "spawn"]
